@@ -78,6 +78,7 @@ type gen struct {
 	outFz     *Var
 	outFzSlot func() Expr
 	outAt     *Var
+	atomOp    map[int]string // multi-invocation: the one (commutative) operation used on each atomic location
 	noNeg     bool // literals must be non-negative (guard for tag private-init.unary)
 	noMustUse bool // no calls of @must_use functions (guard for tag must_use.call-arg)
 }
@@ -162,7 +163,21 @@ func (g *gen) newStruct(minMembers int, ensure []*Type) *Struct {
 		s.Members = append(s.Members, &Member{Name: g.name("m"), T: t})
 	}
 	for i := 0; i < n; i++ {
-		s.Members = append(s.Members, &Member{Name: g.name("m"), T: g.hostType(2)})
+		mt := g.hostType(2)
+		// Known finding (tag struct.matcx2-member, HLSL): a matCx2 structure member is
+		// split into column members read through GetMat<m>On<S> helpers, which are
+		// not emitted when the structure is only reached through an array element
+		// or a nested structure member.
+		if mt.K == TMat && mt.R == 2 && g.f.off("struct.matcx2-member") {
+			mt = Mat(mt.N, 3, F32)
+		}
+		// Known finding (tag struct.array-matcx2-member, HLSL): an array<matCx2, N>
+		// member is declared __matCx2[N]; whole-struct stores copy it into a
+		// floatCx2[N] temporary without the cast HLSL needs.
+		if mt.K == TArray && g.f.off("struct.array-matcx2-member") {
+			mt = noCx2Elem(mt)
+		}
+		s.Members = append(s.Members, &Member{Name: g.name("m"), T: mt})
 	}
 	// shuffle deterministically by draws
 	for i := len(s.Members) - 1; i > 0; i-- {
@@ -332,7 +347,10 @@ func (g *gen) indexExpr(base Expr, n int, depth int) Expr {
 		}
 		return g.expr(TU32, depth-1)
 	}
-	if depth <= 0 || g.chance(45, "cidx") {
+	// finding C01-13: a by-value array / matrix indexed dynamically is spilled to a variable whose
+	// store sits at the first such use; later uses on other paths read it unwritten
+	valueDyn := !IsRef(base) && base.Type() != nil && (base.Type().K == TArray || base.Type().K == TMat) && g.f.off("value.dynamic-index")
+	if depth <= 0 || valueDyn || g.chance(45, "cidx") {
 		g.class("index:const")
 		i := g.intn(n, "ci")
 		if g.chance(50, "cidxs") {
@@ -427,8 +445,8 @@ func (g *gen) pathsTo(roots []Expr, want func(*Type) bool) []pathCand {
 			}
 		}
 		// Known finding (tag storage-load.array-of-struct, HLSL): loading a whole
-		// storage value that contains an array of structures calls Construct<S>
-		// helpers the HLSL writer never emits.
+		// storage value that contains an array of structures or of arrays calls
+		// Construct<element> helpers the HLSL writer never emits.
 		if rv := RootVar(c.root); rv != nil && rv.Kind == VStorage && hasArrayOfStruct(c.t) && g.f.off("storage-load.array-of-struct") {
 			continue
 		}
@@ -437,19 +455,41 @@ func (g *gen) pathsTo(roots []Expr, want func(*Type) bool) []pathCand {
 	return keep
 }
 
-// hasArrayOfStruct reports whether t contains an array whose (innermost)
-// element type is a structure.
+// hasArrayOfStruct reports whether t contains an array whose element type is
+// a structure or an array (the element's Construct helper is the missing one).
 func hasArrayOfStruct(t *Type) bool {
 	switch t.K {
 	case TArray:
-		e := t.Elem
-		for e.K == TArray {
-			e = e.Elem
-		}
-		return e.K == TStruct || hasArrayOfStruct(e)
+		return t.Elem.K == TStruct || t.Elem.K == TArray
 	case TStruct:
 		for _, m := range t.St.Members {
 			if hasArrayOfStruct(m.T) {
+				return true
+			}
+		}
+	}
+	return false
+}
+
+// noCx2Elem rebuilds an array type with matCx2 elements replaced by matCx3.
+func noCx2Elem(t *Type) *Type {
+	switch {
+	case t.K == TArray && t.N > 0:
+		return Array(noCx2Elem(t.Elem), t.N)
+	case t.K == TMat && t.R == 2:
+		return Mat(t.N, 3, F32)
+	}
+	return t
+}
+
+// hasArrayOfArray reports whether t contains an array whose element type is an array.
+func hasArrayOfArray(t *Type) bool {
+	switch t.K {
+	case TArray:
+		return t.Elem.K == TArray || hasArrayOfArray(t.Elem)
+	case TStruct:
+		for _, m := range t.St.Members {
+			if hasArrayOfArray(m.T) {
 				return true
 			}
 		}
